@@ -15,10 +15,16 @@ var All = map[string]*Check{}
 // seqs enumerates all sequences over {0..n-1} of length exactly depth, calling f with a reused slice.
 func seqs(n, depth int, f func([]int)) {
 	cur := make([]int, depth)
+	stop := false
 	var rec func(i int)
 	rec = func(i int) {
+		if stop {
+			return
+		}
 		if i == depth {
 			f(cur)
+			// heartbeat for the watchdog; true = the run's budget is used up (the case is reported incomplete)
+			stop = engine.Beat()
 			return
 		}
 		for a := 0; a < n; a++ {
